@@ -131,3 +131,66 @@ def alias_pairs(key, d, reverse=False):
     if ends_with_element(d):
         out.append(('child', key + '>b', d + '>b'))
     return out
+
+
+# ---------------------------------------------------------------- several kinds of alias data at once (C14)
+_TAIL_RE = re.compile(r'(/?)(\*[0-9]*)?\Z')
+
+
+def split_segment(seg):
+    """(head, text, slash, repeater) of one element segment written as  head {text} / *N  (head = name, #id, .class,
+    [attrs]; each of the other parts may be missing, text = the braces included).  None when the segment is written in
+    another order (`p*2.a`, `p{t}.a`): not handled textually."""
+    e = head_end(seg)
+    head, rest = seg[:e], seg[e:]
+    text = ''
+    if rest.startswith('{'):
+        depth = 0
+        i = 0
+        while i < len(rest):
+            c = rest[i]
+            if c == '\\':
+                i += 2
+                continue
+            if c == '{':
+                depth += 1
+            elif c == '}':
+                depth -= 1
+                if depth == 0:
+                    break
+            i += 1
+        if depth != 0 or i >= len(rest):
+            return None
+        text, rest = rest[:i + 1], rest[i + 1:]
+    m = _TAIL_RE.match(rest)
+    if not m:
+        return None
+    return head, text, m.group(1), m.group(2) or ''
+
+
+def decorate_tops_combined(d, attrs='', text=None, slash=False, after_name=False):
+    """The definition with SEVERAL kinds of alias data written on every top-level element at once: `attrs` (as
+    decorate_tops), the text (in place of the element's own: text written on the alias replaces it), the self-closing
+    mark.  The element's own repeater stays where it is.  None when not expressible textually (groups, a top-level
+    text node, a segment written in an unusual order)."""
+    chunks = top_level_segments(d)
+    if chunks is None:
+        return None
+    out = []
+    for seg, top in chunks:
+        if not top or seg == '':
+            out.append(seg)
+            continue
+        name_end = NAME_RE.match(seg).end()
+        if name_end == 0:
+            return None
+        if seg.endswith('+') and len(seg) > 1 and chunks[-1][0] is seg:
+            return None            # `ol+` style names: the trailing + belongs to the name
+        parts = split_segment(seg)
+        if parts is None:
+            return None
+        head, own_text, own_slash, own_rep = parts
+        if attrs:
+            head = (head[:name_end] + attrs + head[name_end:]) if after_name else head + attrs
+        out.append(head + ('{%s}' % text if text is not None else own_text) + ('/' if slash else own_slash) + own_rep)
+    return ''.join(out)
